@@ -485,6 +485,68 @@ def overwrite_rule(rep, u):
     return n
 
 
+def search_budget_rule(rep, u, fname="bn_mod_sqrt"):
+    """Tonelli-Shanks needs a quadratic non-residue; the routine searches for one with a trial counter and gives up with the
+    'no square root' answer when the counter runs out.  Half of all residues are non-residues, so the search succeeds after
+    two trials on average - provided the budget does not depend on how *small the operand* is.  The counter that bounds the
+    search loop must be derived from the modulus (or be a constant), not from the operand: with bn_calc_bits(operand) a
+    residue such as 4 gets three trials and is reported as having no root."""
+    fn = u.fn(fname)
+    if fn is None or not fn.has_cfg:
+        raise driver.AnalysisBroken("anchor %s vanished" % fname)
+    rep.functions.add(fname)
+    operand, modulus = fn.params[0]["n"], fn.params[1]["n"]
+    # locals that received a copy of the operand / the modulus (bn_assign, bn_assign_init)
+    derived = {operand: "operand", modulus: "modulus"}
+    changed = True
+    while changed:
+        changed = False
+        for _p, _r, c, _ps in fn.calls({"bn_assign", "bn_assign_init"}):
+            d0, s0 = core.base_ref(c["args"][0]), core.base_ref(c["args"][1])
+            if d0 is not None and s0 is not None and s0["n"] in derived and d0["n"] not in derived:
+                derived[d0["n"]] = derived[s0["n"]]
+                changed = True
+    n = 0
+    for h, body in fn.loops().items():
+        legs = [c for pos, _r, c, _ps in fn.calls({"bn_mod_legendre"}) if pos[0] in body]
+        if not legs:
+            continue
+        # the counter decremented in the loop's conditions
+        ctr = None
+        for b in body:
+            c = fn.blocks[b].cond
+            if c is None:
+                continue
+            for x, _ in walk(c):
+                st_ = core.step_of(x)
+                if st_ is not None and st_[1] == -1:
+                    ctr = core.strip_casts(st_[0])
+        if ctr is None:
+            continue
+        n += 1
+        defs = [x["y"] for _p, _r, x, _ps in fn.nodes() if x.get("k") == "bin" and x["op"] == "=" and key(core.strip_casts(x["x"])) == key(ctr) and
+                fn.dominates(_p[0], h) and _p[0] not in body]
+        src = None
+        for d in defs[-1:]:
+            d0 = core.strip_casts(d)
+            if const_val(d0) is not None:
+                src = "constant"
+            elif d0.get("k") == "call":
+                for a in d0.get("args", []):
+                    r = core.base_ref(a)
+                    if r is not None and r["n"] in derived:
+                        src = derived[r["n"]]
+        desc = "%s: the trial budget of the non-residue search is derived from the modulus (or constant)" % fname
+        if src in ("modulus", "constant"):
+            rep.proved("R-SPEC", fn, "search-budget", desc, "counter '%s' from the %s" % (key(ctr), src))
+        elif src == "operand":
+            rep.violated("R-SPEC", fn, "search-budget", desc, "counter '%s' is set from the size of the operand: a small residue (e.g. 4 modulo the secp224r1 "
+                         "prime) gets only a few trials and is reported as having no square root" % key(ctr))
+        else:
+            rep.undecided("R-SPEC", fn, "search-budget", desc, "origin of counter '%s' not recognised" % key(ctr))
+    return n
+
+
 def norm_rule(rep, fn):
     """R-NORM: `digits` is the exact number of significant digits - bn_is_zero, bn_cmp and bn_calc_bits read it as such and
     every arithmetic routine re-derives it with bn_digits_calc_digits.  A store to X->digits through a bn_p parameter is
@@ -606,6 +668,7 @@ def run(rep, tier):
     rep.floor("per-iteration temporaries read in loops", n_fresh, 3)
     rep.floor("stores to ->digits", n_norm, 8)
     rep.floor("importers that set the length", overwrite_rule(rep, us[cs[0][0]]), 2)
+    rep.floor("non-residue searches", search_budget_rule(rep, us[cs[0][0]]), 1)
     from props import c03
     c03.reduce_rule(rep, us[cs[0][0]])            # modular reduction: only a value strictly below the modulus is left alone
     rep.floor("destination (num, count) arguments", n_cap, 12)
